@@ -181,19 +181,26 @@ func checkLookups(in *Inst, f *model.Forest, tracked []int, others []Hash, res *
 			if g != w {
 				return fmt.Errorf("%s: GetHash(%d) = %s, the node there has hash %s (N=%d)", in.Cfg, pos, shortH(g), shortH(w), v.N)
 			}
-		case pos <= v.MaxPos() && exists && partial && allowed[pos]:
-			if g != w && g != (Hash{}) {
-				return fmt.Errorf("%s: GetHash(%d) = %s, the node there has hash %s (N=%d)", in.Cfg, pos, shortH(g), shortH(w), v.N)
+		case pos <= v.MaxPos() && exists:
+			// partial forest, node exists but need not be stored: the statement says "the true hash when it
+			// exists and is stored, zero when not stored" - storedness is read from the exported Nodes map.
+			// (Whether it *should* be stored is C09's business and is only counted here.)
+			ip, _ := model.Translate(pos, v.R, vr.R)
+			_, stored := in.M.Nodes.Get(ip)
+			if !allowed[pos] && stored {
+				res.count("partial-stores-beyond-needed", 1)
+			}
+			if stored && g != w {
+				return fmt.Errorf("%s: GetHash(%d) = %s, the stored node there has hash %s (N=%d)", in.Cfg, pos, shortH(g), shortH(w), v.N)
+			}
+			if !stored && g != (Hash{}) {
+				return fmt.Errorf("%s: GetHash(%d) = %s for a position that is not stored, want the zero hash (N=%d)", in.Cfg, pos, shortH(g), v.N)
 			}
 		case pos <= v.MaxPos():
-			// no node exists there (outside the forest / vacated), or a partial forest has no reason to store it
+			// no node exists there (outside the forest / vacated)
 			res.count("probe:nonexistent-position", 1)
 			if g != (Hash{}) {
-				why := "where no node exists"
-				if exists {
-					why = "which no remembered leaf needs"
-				}
-				return fmt.Errorf("%s: GetHash(%d) = %s %s, want the zero hash (N=%d, rows %d)", in.Cfg, pos, shortH(g), why, v.N, v.R)
+				return fmt.Errorf("%s: GetHash(%d) = %s where no node exists, want the zero hash (N=%d, rows %d)", in.Cfg, pos, shortH(g), v.N, v.R)
 			}
 		default:
 			// beyond the last position of the external layout. A map forest may read such a value as
